@@ -205,7 +205,13 @@ VKrep(h, L) ==
                   IF u.volum THEN x.r.vf = 7 /\ x.r.vals.tv = ks[i].vals.tv /\ x.r.vals.uv = ks[i].vals.uv /\ x.r.vals.dv = ks[i].vals.dv
                   ELSE x.r.vf = -1,
          "C10:a usage report multicast by the kernel did not reach the owning SMF with its values and cause intact"),
-       V(Len(srrs) <= Cardinality(seids), "C10:more session reports than sessions in the batch") }
+       V(Len(srrs) <= Cardinality(seids), "C10:more session reports than sessions in the batch"),
+       \* C19, last sentence: the cause the data plane delivered maps to the usage-report trigger of the same name and to no other
+       \* (the forwarded report is identified by its measured volume, else by its start time)
+       V(\A i \in DOMAIN ks : \A x \in Rng(all) :
+            (x.r.urr = ks[i].urr /\ (IF x.r.vals.tv # "-" THEN x.r.vals.tv = ks[i].vals.tv ELSE x.r.vals.st = ks[i].vals.st))
+               => x.r.trig = TrigOfCause(ks[i].trig),
+         "C19:a reporting-trigger cause delivered by the data plane reached the SMF as another usage-report trigger") }
 
 \* ------------------------------------------------------------------ C01 at the kernel boundary: the rule tables of the (simulated) module
 \* The rules a correct UPF holds in the kernel after the step: those named by Create IEs of live sessions and not removed since
